@@ -851,6 +851,16 @@ func callBuiltin(caller *frame, callpos token.Pos, fn *ssa.Builtin, args []value
 		}
 		src := args[1].([]value)
 		dst := args[0].([]value)
+		if fr.p.race != nil {
+			// elements written into the spare capacity of the existing backing array, elements read from the source
+			full := dst[:cap(dst)]
+			for i := len(dst); i < len(full) && i < len(dst)+len(src); i++ {
+				fr.raceNoteUntyped(&full[i], true, "slice element (append into spare capacity)")
+			}
+			for i := range src {
+				fr.raceNoteUntyped(&src[i], false, "slice element")
+			}
+		}
 		for _, e := range src {
 			dst = append(dst, copyVal(e))
 		}
@@ -871,6 +881,12 @@ func callBuiltin(caller *frame, callpos token.Pos, fn *ssa.Builtin, args []value
 		n := len(d)
 		if len(s) < n {
 			n = len(s)
+		}
+		if fr.p.race != nil {
+			for i := 0; i < n; i++ {
+				fr.raceNoteUntyped(&d[i], true, "slice element (copy)")
+				fr.raceNoteUntyped(&s[i], false, "slice element")
+			}
 		}
 		tmp := make([]value, n)
 		for i := 0; i < n; i++ {
